@@ -39,6 +39,8 @@ type c07Case struct {
 	Fault       string   `json:"fault"`      // none | cut-c2s | cut-s2c | blackhole
 	FaultAt     int      `json:"fault_at"`   // byte offset on the WebSocket link at which it is cut
 	ParkSwap    bool     `json:"park_swap"`  // park the swapping goroutine (virtual 1 ns) so that everything else runs first
+	ParkClientMs int     `json:"park_client_ms"` // hold the client's swap back that long (as a Send still in flight on polling does); the client's UpgradeTimeout is then 2 s, the server's 5 s
+	BigAfter    int      `json:"big_after"`  // size of one extra message in each direction after the upgrade (0 = none)
 }
 
 func (c c07Case) class() string {
@@ -67,7 +69,8 @@ func evalC07(c c07Case) (f *Failure, nontrivial bool) {
 	duringSwap := 0
 	var start time.Time
 	seq := 0
-	send := func(dir string, binary bool, tag string) {
+	var send func(dir string, binary bool, tag string)
+	sendPad := func(dir string, binary bool, tag string, pad int) {
 		mu.Lock()
 		seq++
 		id := fmt.Sprintf("%s-%s-%d", dir, tag, seq)
@@ -85,12 +88,23 @@ func evalC07(c c07Case) (f *Failure, nontrivial bool) {
 			return
 		}
 		mu.Unlock()
-		p, _ := parser.NewPacket(parser.PacketTypeMessage, binary, []byte(id))
+		data := []byte(id)
+		if pad > 0 {
+			data = append(append(data, '|'), bytes.Repeat([]byte{'x'}, pad)...)
+		}
+		p, _ := parser.NewPacket(parser.PacketTypeMessage, binary, data)
 		if dir == "c2s" {
 			cl.Send(p)
 		} else {
 			s.Send(p)
 		}
+	}
+	send = func(dir string, binary bool, tag string) { sendPad(dir, binary, tag, 0) }
+	key := func(data []byte) string {
+		if i := bytes.IndexByte(data, '|'); i >= 0 {
+			return string(data[:i])
+		}
+		return string(data)
 	}
 	swapSeen := map[string]bool{}
 	hooks := hookSet{point: func(site string) {
@@ -125,6 +139,9 @@ func evalC07(c c07Case) (f *Failure, nontrivial bool) {
 		if c.ParkSwap {
 			time.Sleep(time.Nanosecond)
 		}
+		if side == "client" && c.ParkClientMs > 0 {
+			time.Sleep(time.Duration(c.ParkClientMs) * time.Millisecond)
+		}
 	}}
 	body := func() {
 		start = time.Now()
@@ -157,7 +174,7 @@ func evalC07(c c07Case) (f *Failure, nontrivial bool) {
 					mu.Lock()
 					for _, p := range ps {
 						if p.Type == parser.PacketTypeMessage {
-							gotS[string(p.Data)]++
+							gotS[key(p.Data)]++
 						}
 					}
 					mu.Unlock()
@@ -175,12 +192,16 @@ func evalC07(c c07Case) (f *Failure, nontrivial bool) {
 		go hs.Serve(net)
 		tr := &http.Transport{DialContext: net.Dial, MaxIdleConnsPerHost: 8}
 		var err error
+		clientUpgradeTimeout := 5 * time.Second
+		if c.ParkClientMs > 0 {
+			clientUpgradeTimeout = 2 * time.Second
+		}
 		cl, err := eio.Dial("http://x/engine.io", &eio.Callbacks{
 			OnPacket: func(ps ...*parser.Packet) {
 				mu.Lock()
 				for _, p := range ps {
 					if p.Type == parser.PacketTypeMessage {
-						gotC[string(p.Data)]++
+						gotC[key(p.Data)]++
 					}
 				}
 				mu.Unlock()
@@ -191,7 +212,7 @@ func evalC07(c c07Case) (f *Failure, nontrivial bool) {
 				closes = append(closes, fmt.Sprintf("client:%s:%v@%v", r, err, time.Since(start)))
 				mu.Unlock()
 			},
-		}, &eio.ClientConfig{Transports: []string{"polling", "websocket"}, HTTPTransport: tr, UpgradeTimeout: 5 * time.Second,
+		}, &eio.ClientConfig{Transports: []string{"polling", "websocket"}, HTTPTransport: tr, UpgradeTimeout: clientUpgradeTimeout,
 			UpgradeDone: func(string) {
 				mu.Lock()
 				upgradedAt = time.Since(start)
@@ -230,6 +251,12 @@ func evalC07(c c07Case) (f *Failure, nontrivial bool) {
 		for i := 0; i < 3; i++ {
 			send("c2s", i == 1, "after")
 			send("s2c", i == 2, "after")
+		}
+		if c.BigAfter > 0 {
+			sendPad("s2c", false, "big", c.BigAfter)
+			sendPad("c2s", false, "big", c.BigAfter)
+			sendPad("s2c", true, "bigbin", c.BigAfter)
+			sendPad("c2s", true, "bigbin", c.BigAfter)
 		}
 		settle(80 * time.Second) // >= 3 heartbeat periods of 25 s
 		send("c2s", false, "late")
@@ -329,7 +356,11 @@ var c07OutOfDomain int64
 func genC07Case(t *rapid.T) c07Case {
 	c := c07Case{WSLatencyUs: rapid.SampledFrom([]int{0, 0, 100, 1000, 5000, 20000}).Draw(t, "wsLatency"),
 		BurstSwap: rapid.SampledFrom([]string{"none", "server", "client", "both"}).Draw(t, "burstSwap"), BurstDone: rapid.Bool().Draw(t, "burstDone"),
-		ParkSwap: rapid.Bool().Draw(t, "park"), Fault: "none"}
+		ParkSwap: rapid.Bool().Draw(t, "park"), Fault: "none",
+		BigAfter: rapid.SampledFrom([]int{0, 0, 1000, 32700, 32768, 65536, 200000}).Draw(t, "bigAfter")}
+	if rapid.IntRange(0, 5).Draw(t, "parkClient") == 0 {
+		c.ParkClientMs = 3000
+	}
 	if rapid.IntRange(0, 3).Draw(t, "faulty") == 0 {
 		c.Fault = rapid.SampledFrom([]string{"cut-c2s", "cut-s2c", "blackhole"}).Draw(t, "fault")
 		c.FaultAt = rapid.IntRange(0, 400).Draw(t, "faultAt")
@@ -338,7 +369,7 @@ func genC07Case(t *rapid.T) c07Case {
 		// A disturbed WebSocket makes the library wait for the WebSocket library's 5 s close timeouts with the transport lock held;
 		// concurrent Sends then wait for that lock, which freezes virtual time (DESIGN.md §2.2). Disturbed upgrades are therefore
 		// exercised without traffic inside the window; the traffic follows at 15 s.
-		c.BurstSwap, c.BurstDone, c.ParkSwap = "none", false, false
+		c.BurstSwap, c.BurstDone, c.ParkSwap, c.ParkClientMs = "none", false, false, 0
 		return c
 	}
 	horizon := 4*c.WSLatencyUs + 3000
@@ -352,7 +383,7 @@ func TestC07_Upgrade(t *testing.T) {
 	setT(t)
 	defer startWatchdog(t, 90*time.Second)()
 	ev := NewEv(t, "C07", c07Check, "rapid on the virtual-time network at Engine.IO level: 0..30 numbered text/binary messages in both directions at instants spread over the upgrade (microsecond resolution), "+
-		"latency 0..20 ms on the WebSocket link, bursts fired from the yield hooks right before the transport swap on either side (optionally parking the swapping goroutine) and from UpgradeDone; "+
+		"latency 0..20 ms on the WebSocket link, the client's swap optionally held back for 3 s (longer than its own 2 s UpgradeTimeout, shorter than the server's), one message of 1000..200000 bytes each way after the upgrade, bursts fired from the yield hooks right before the transport swap on either side (optionally parking the swapping goroutine) and from UpgradeDone; "+
 		"disturbed upgrades: WebSocket link cut at a drawn byte offset 0..400 in either direction (handshake, probe, pong, UPGRADE) or black-holed (both upgrade timeouts fire); then traffic after 15 s, "+
 		"3 heartbeat periods, traffic again; oracle: multiset received == sent on both sides, no OnClose, completed upgrade => websocket on both sides, disturbed => both sides agree on the transport and traffic keeps flowing; non-trivial = a message handed to Send before the upgrade completed, or a disturbed upgrade followed by traffic")
 	rapidGuard(t, "C07", c07Check)
